@@ -344,7 +344,7 @@ func Main(c *lib.Check, scenarios []Scenario, jobs []Job, rule string) {
 		var dl int64
 		var name string
 		fmt.Sscanf(*flagWorker, "%d/%d", &i, &n)
-		p := strings.Split(*flagJob, "|")
+		p := strings.Split(*flagJob, "\x1f")
 		name = p[0]
 		fmt.Sscanf(p[1], "%d", &bound)
 		fmt.Sscanf(p[2], "%d", &dl)
@@ -407,7 +407,7 @@ func Main(c *lib.Check, scenarios []Scenario, jobs []Job, rule string) {
 			wg.Add(1)
 			go func(i int) {
 				defer wg.Done()
-				cmd := exec.Command(self, "-tier", c.Tier, "-worker", fmt.Sprintf("%d/%d", i, n), "-job", fmt.Sprintf("%s|%d|%d", j.Scenario, j.Bound, dl.Unix()))
+				cmd := exec.Command(self, "-tier", c.Tier, "-worker", fmt.Sprintf("%d/%d", i, n), "-job", fmt.Sprintf("%s\x1f%d\x1f%d", j.Scenario, j.Bound, dl.Unix()))
 				cmd.Env = append(os.Environ(), "GOMAXPROCS=2")
 				cmd.Stderr = os.Stderr
 				out, err := cmd.Output()
